@@ -739,6 +739,7 @@ func checkC19(p *Prog, res *Result, tier string) {
 	checkUnguardedTypes(p, res, inOwner)
 	// ---- R5: self-deadlock ----
 	checkSelfDeadlock(p, p.lockContext(), res, "C19-R5")
+	checkLockPairing(p, res, "C19-R5")
 	checkSharedAppend(p, res, "C19-R7")
 
 	// ---- R6: shared batches are read-only (C05-R8) ----
@@ -1611,4 +1612,107 @@ func samePlace(a, b ssa.Value) bool {
 		return fieldOf(fa) == fieldOf(fb) && (resolve(fa.X) == resolve(fb.X) || accessPath(fa.X) == accessPath(fb.X))
 	}
 	return false
+}
+
+// checkLockPairing: a lock taken by a function is released on every return of that function - by a deferred unlock, or
+// by an explicit one on every path from the acquisition to a return (branches on the same condition as the acquisition
+// are followed consistently: `if lock { mu.Lock() } .. if lock { mu.Unlock() }`). A path that returns with the lock
+// still held blocks the next writer of that lock forever; when the lock belongs to the event cache or the hub, that
+// writer is the sequencer, and no later write becomes readable. The one accepted exception is the in-process engine's
+// batch, whose BeginBatchWrite hands the store lock to Commit (C11-R2 decides that pairing).
+func checkLockPairing(p *Prog, res *Result, rule string) {
+	n, violations := 0, 0
+	var fs []*ssa.Function
+	for _, f := range p.AllFuncs {
+		if f.Synthetic != "" || f.Pkg == nil || f.Blocks == nil || !strings.HasPrefix(f.Pkg.Pkg.Path(), modPath) || strings.Contains(f.Pkg.Pkg.Path(), "/mock") {
+			continue
+		}
+		fs = append(fs, f)
+	}
+	sort.Slice(fs, func(i, j int) bool { return funcName(fs[i]) < funcName(fs[j]) })
+	for _, f := range fs {
+		own := mutexCallsIn(p, f)
+		for _, l := range own {
+			if l.deferred || (l.kind != "Lock" && l.kind != "RLock") {
+				continue
+			}
+			want := "Unlock"
+			if l.kind == "RLock" {
+				want = "RUnlock"
+			}
+			// the batch lock of the in-process engine is released by Commit
+			if strings.HasSuffix(f.Pkg.Pkg.Path(), "/pkg/storage/memkv") && f.Name() == "BeginBatchWrite" {
+				continue
+			}
+			n++
+			// a deferred release counts from the defer statement on: the statement itself must be reached
+			isRelease := map[ssa.Instruction]bool{}
+			deferred := false
+			for _, u := range own {
+				if u.deferred && u.kind == want && u.mutex == l.mutex && u.obj == l.obj {
+					isRelease[u.ins] = true
+					if instrDominates(u.ins, l.ins) {
+						deferred = true
+					}
+				}
+			}
+			// .. or a deferred function literal that releases it
+			for _, c := range callsIn(f) {
+				d, ok := c.(*ssa.Defer)
+				if !ok {
+					continue
+				}
+				if mc, ok := d.Common().Value.(*ssa.MakeClosure); ok {
+					for _, u := range mutexCallsIn(p, mc.Fn.(*ssa.Function)) {
+						if u.kind == want && u.mutex == l.mutex {
+							isRelease[d] = true
+							if instrDominates(d, l.ins) {
+								deferred = true
+							}
+						}
+					}
+				}
+			}
+			if deferred {
+				continue
+			}
+			for _, u := range own {
+				if !u.deferred && u.kind == want && u.mutex == l.mutex && u.obj == l.obj {
+					isRelease[u.ins] = true
+				}
+			}
+			// conditions known at the acquisition
+			known := map[string]bool{}
+			for _, cf := range localFacts(l.ins.Block()) {
+				if k := pureKey(cf.Raw); k != "" {
+					known[k] = cf.Want
+				}
+			}
+			pa := posOf(l.ins)
+			leak, _ := searchFrom(pa.b, pa.i+1, searchOpts{
+				stop: func(i ssa.Instruction) bool { return isRelease[i] },
+				bad:  func(i ssa.Instruction) bool { _, ok := i.(*ssa.Return); return ok },
+				skipEdge: func(from *ssa.BasicBlock, succ int) bool {
+					iff := ifOf(from)
+					if iff == nil {
+						return false
+					}
+					cf := factOf(iff.Cond, succ == 0)
+					if k := pureKey(cf.Raw); k != "" {
+						if w, ok := known[k]; ok && w != cf.Want {
+							return true
+						}
+					}
+					return false
+				},
+			})
+			if leak != nil {
+				violations++
+				res.bad(rule, fmt.Sprintf("%s: %s of %s is released on every return", funcName(f), l.kind, l.mutex.Name()), p.pos(leak.Pos()), "the function can return with the lock still held (no deferred "+want+", and this return is reached without an explicit one): the next goroutine that needs the lock exclusively waits forever - for the event cache or the hub that is the sequencer, and from then on no write becomes readable or watchable")
+			}
+		}
+	}
+	if violations == 0 {
+		res.ok(rule, "every lock taken is released on every return", "-", fmt.Sprintf("%d non-deferred acquisitions examined", n))
+	}
 }
